@@ -28,7 +28,7 @@ class MpmcbEngine(Engine):
         self.bias = bias
 
     def n_cases(self, tier):
-        return 2500 if tier == "quick" else 60000
+        return 1000 if tier == "quick" else 60000
 
     # ------------------------------------------------------------------ corpus
     def corpus(self):
